@@ -262,14 +262,28 @@ pub fn run(tier: Tier) -> i32 {
     for (l, _) in crate::families::huge_family(0).files.iter().take(if t { 4 } else { 2 }) {
         subs.push(l.clone());
     }
+    // two very large subjects (20000 / 40000 classes: beyond any plausible batch or buffer size of a writer): deviation
+    // bound 1 at a fixed selection of calls only (first four, middle, every 5000th, last four)
+    let nhuge_from = subs.len();
+    for n in [20000usize, 40000] {
+        let mut f = Vec::with_capacity(n + 2);
+        for i in 0..n {
+            f.push(class(leak(&format!("o.C{}", i)), leak(&format!("c{:05}", i))));
+        }
+        f.push(method(None, None, "p", "", Orig::None, "m"));
+        subs.push(f);
+    }
     for si in nsmall..subs.len() {
         work.push((si, None));
         let mapping = print_file(&subs[si], Term::Lf);
         if let Ok(r) = execute(&mapping, &[], 0) {
             // every call of the default run as the single deviation point, in chunks
+            let n = r.calls.len();
             let mut i = 0;
-            while i < r.calls.len() {
-                work.push((si, Some(i)));
+            while i < n {
+                if si < nhuge_from || i < 4 || i + 4 >= n || i == n / 2 || i % 5000 == 0 {
+                    work.push((si, Some(i)));
+                }
                 i += 1;
             }
         }
@@ -325,7 +339,7 @@ pub fn run(tier: Tier) -> i32 {
         prop: "C15",
         tier,
         level: "fault_enumeration",
-        rule: format!("{} mappings (each padding site exercised / not exercised, 0 classes) x all sink scripts with <= {} deviations from 'accept everything' (per call: accept 1, 2, 3, len-3, len-2 or len-1 bytes; Ok(0); Interrupted; sticky hard error; hard error for that one call only; WouldBlock for that one call only), enumerated by run-record-branch to completion, plus {} big subjects (147 / 300 / 2340 / 2341 classes) with deviation bound 1; plus uniform sinks accepting at most k = 1..16, 37, 4095..4097, 65535, 65536 bytes per call with and without a hard failure in the middle. Oracle: Ok => accepted bytes == canonical; hard failure or Ok(0) injected => Err; accepted bytes always a prefix of canonical; short writes / Interrupted alone never make the write fail. Bursts of 2 / 99 / 100 / 101 / 1000 consecutive Interrupted answers at every call. The sink implements write_vectored natively (a gathered request counts as one call). evaluations = scripts executed; distinct = distinct (result, accepted length, number of calls)", nsmall, bound, nsub - nsmall),
+        rule: format!("{} mappings (each padding site exercised / not exercised, 0 classes) x all sink scripts with <= {} deviations from 'accept everything' (per call: accept 1, 2, 3, len-3, len-2 or len-1 bytes; Ok(0); Interrupted; sticky hard error; hard error for that one call only; WouldBlock for that one call only), enumerated by run-record-branch to completion, plus {} big subjects (147 / 300 / 2340 / 2341 classes with deviation bound 1 at every call; 20000 / 40000 classes with deviation bound 1 at the first four, the middle, every 5000th and the last four calls); plus uniform sinks accepting at most k = 1..16, 37, 4095..4097, 65535, 65536 bytes per call with and without a hard failure in the middle. Oracle: Ok => accepted bytes == canonical; hard failure or Ok(0) injected => Err; accepted bytes always a prefix of canonical; short writes / Interrupted alone never make the write fail. Bursts of 2 / 99 / 100 / 101 / 1000 consecutive Interrupted answers at every call. The sink implements write_vectored natively (a gathered request counts as one call). evaluations = scripts executed; distinct = distinct (result, accepted length, number of calls)", nsmall, bound, nsub - nsmall),
         bounds: json!({"mappings": nsub, "deviation_bound": bound, "alternatives_per_call": "short(1,2,3,len-3..len-1), Ok(0), Interrupted, hard (sticky), hard (once), WouldBlock (once)"}),
         assumptions: vec!["canonical = the bytes the same build writes into a Vec".into(), "Ok(0) on a non-empty buffer counts as a non-retryable failure (std::io::Write::write_all reports WriteZero)".into()],
         trusted_base: vec!["rustc/std".into(), "the scripted sink in pgmc/src/props/c15.rs".into()],
